@@ -84,6 +84,8 @@ class Executor:
         self.max_violations = o.get('max_violations', 50)
         self.max_addr_split = o.get('max_addr_split', 300)
         self.preempt_bound = o.get('preempt', 2)
+        self.fair_streak = o.get('fair_streak', 40)
+        self.ignore_unfinished_threads = o.get('ignore_unfinished_threads', False)
         self.overrides = o.get('overrides', {})
         self.replay = o.get('replay')            # list of ints: concrete mode
         self.verbose = o.get('verbose', 0)
@@ -1178,7 +1180,7 @@ class Executor:
     def finish(self, st):
         """main thread returned from the harness entry"""
         for t in st.threads:
-            if t.status != 'done':
+            if t.status != 'done' and not self.ignore_unfinished_threads:
                 self.violation(st, 'thread-not-finished', 'harness returned while thread %s is %s' % (t.name, t.status))
         if self.check_leaks:
             base = st.ghost.get('leak_base', 0)
@@ -1205,18 +1207,25 @@ class Executor:
         if self.replay is not None:
             # concrete mode: follow the recorded schedule
             i = len(st.inputs)
+            fair = False
             if forced or len([c for c in cand]) > 1 or (cand and cand[0][0] != cur):
                 if not cand:
                     if all(t.status == 'done' for t in st.threads): raise PathEnd('done-all')
                     self.violation(st, 'deadlock', 'all live threads are blocked: ' + ', '.join('%s:%s' % (t.name, t.status) for t in st.threads))
-                if not forced and st.preempt >= self.preempt_bound: return
-                if not forced and len(cand) == 1 and cand[0][0] == cur: return
+                if not forced:
+                    rs = st.ghost.get('run_streak', (cur, 0))
+                    rs = (cur, rs[1] + 1) if rs[0] == cur else (cur, 1)
+                    st.ghost['run_streak'] = rs
+                    fair = rs[1] > self.fair_streak and [c for c in cand if c[0] != cur and c[1] in ('run', 'ready')]
+                    if fair: st.ghost['run_streak'] = (cur, 0)
+                    elif st.preempt >= self.preempt_bound: return
+                    if not fair and len(cand) == 1 and cand[0][0] == cur: return
                 if i >= len(self.replay): raise PathEnd('replay-exhausted')
                 tid = self.replay[i]
                 kinds = dict(cand)
                 if tid not in kinds: raise PathEnd('replay-schedule-mismatch')
                 st.inputs.append(('sched', tid))
-                if not forced and tid != cur: st.preempt += 1
+                if not forced and tid != cur and not fair: st.preempt += 1
                 self._switch_to(st, tid, kinds[tid])
             return
         if forced:
@@ -1230,8 +1239,22 @@ class Executor:
             elif st.preempt < self.preempt_bound: choices += injected
             if not choices:
                 if all(t.status == 'done' for t in st.threads): raise PathEnd('done-all')
-                self.violation(st, 'deadlock', 'all live threads are blocked: ' + ', '.join('%s:%s' % (t.name, t.status) for t in st.threads if t.status != 'done'))
+                self.violation(st, 'deadlock', 'all live threads are blocked: ' + ', '.join('%s:%s in %s' % (t.name[:24], t.status, self._thread_where(t)) for t in st.threads if t.status != 'done'))
         else:
+            # fairness: a thread that keeps passing scheduling points while others could run is spinning; after
+            # self.fair_streak points it yields once for free (an unfair scheduler is not part of any property here)
+            rs = st.ghost.get('run_streak', (cur, 0))
+            rs = (cur, rs[1] + 1) if rs[0] == cur else (cur, 1)
+            st.ghost['run_streak'] = rs
+            if rs[1] > self.fair_streak:
+                others = [c for c in cand if c[0] != cur and c[1] in ('run', 'ready')]
+                if others:
+                    # starvation freedom: the runnable thread that has not run for the longest time goes next (no choice here)
+                    st.ghost['run_streak'] = (cur, 0)
+                    lr = st.ghost.get('last_run', {})
+                    first = min(others, key=lambda c: (lr.get(c[0], -1), c[0]))
+                    st.inputs.append(('sched', first[0])); self._switch_to(st, first[0], first[1])
+                    return
             if st.preempt >= self.preempt_bound: return
             choices = [c for c in cand if c[0] == cur] + [c for c in cand if c[0] != cur]
             if len(choices) <= 1: return
@@ -1247,8 +1270,14 @@ class Executor:
         st.inputs.append(('sched', first[0]))
         self._switch_to(st, first[0], first[1])
 
+    def _thread_where(self, t):
+        try: return '<-'.join(fr.cf.name[:44] for fr in reversed(t.frames[-3:]))
+        except Exception: return '?'
+
     def _switch_to(self, st, tid, kind='run'):
         t = st.threads[tid]
+        if tid != st.cur or True:
+            lr = dict(st.ghost.get('last_run', {})); lr[tid] = st.ninstr; st.ghost['last_run'] = lr
         if t.status == 'blocked':
             t.status = 'run'; t.wait = None
             if kind in ('spurious', 'timeout'):
